@@ -7,7 +7,7 @@ import subprocess
 import time
 
 from vflib import core
-from vflib.core import Broken, validate_trace
+from vflib.core import Broken, validate_trace, binding_selftest
 
 MC_CFGS = [("MFrontBuild_MC.cfg", None), ("MFrontBuild_crash.cfg", None), ("MFrontBuild_live.cfg", None),
            # configurations that TLC must reject: the lock is what prevents torn reads; the two behaviours that the design admits
@@ -114,6 +114,20 @@ def concurrent_phase(ctx, prop, inputs, desc, parse_registry, plans):
                 ("concurrent runs %s not explained by MFrontBuild.tla at event %d: %s" % (runs, v["maxl"], json.dumps(at)[:300]))
             ctx.violation("concurrent:%s" % (v["violated"] or "rejected"), what, {"runs": [list(r) for r in runs], "trace": v["file"]})
             continue
+        if hi == 0:
+            def empty_registry(e):
+                e[-1]["items"] = []
+            binding_selftest(ctx, "mfront/MFrontBuildTrace", "MFrontBuildTrace.cfg", ev, empty_registry, "concurrent runs leaving an empty registry", dfs=True)
+
+            def overlapping_sections(e):
+                # the second CSEnter of the trace moved before the first SemPost
+                i = [k for k, x in enumerate(e) if x["e"] == "CSEnter"]
+                j = next((k for k, x in enumerate(e) if x["e"] == "SemPost"), None)
+                if len(i) < 2 or j is None or e[i[1]]["p"] == e[i[0]]["p"]:
+                    return False
+                x = e.pop(i[1])
+                e.insert(j, x)
+            binding_selftest(ctx, "mfront/MFrontBuildTrace", "MFrontBuildTrace.cfg", ev, overlapping_sections, "concurrent runs with overlapping lock-protected sections", dfs=True)
         s = validate_trace(ctx, "mfront/MFrontBuildTrace", "MFrontBuildTrace_strict.cfg", ev, name="mfbs", dfs=True)
         stats["exactly_predicted"] += bool(s["accepted"])
     return stats
